@@ -1,10 +1,14 @@
 """C16 - IMP conversion is the official scale, odd, monotone, bounded; two-score form = scale of the sum."""
-from bridge_env.score import calc_score, point_difference_to_imps, score_to_imp
+from bridge_env.score import calc_score
+from bridge_env.score import point_difference_to_imps as _pdi, score_to_imp as _sti
 
 from .. import adapt
 from ..core import Counter, Result
 from ..ref import score as R
 from ..ref.auction import BIDS
+
+point_difference_to_imps = adapt.shaped(_pdi)      # every question is also asked with the arguments passed by keyword
+score_to_imp = adapt.shaped(_sti)
 
 
 def _try(f, *a):
